@@ -7,6 +7,7 @@ import Kvass.Pins.Coord
 import Kvass.Proofs.CoordKeep
 import Kvass.Proofs.CoordCrash
 import Kvass.Proofs.LoopFaulty
+import Kvass.Proofs.LoopPos
 
 namespace Kvass.Props.C01
 open Kvass Kvass.Coord Kvass.Spec
@@ -112,6 +113,26 @@ theorem C01_ok (swr : Swr) (sc : Sched) (inp : Input) (hmp : inp.opt.maxProc ≠
     C01.ok inp (Obs.ofOutcome (cycle swr sc inp)) = true := by
   unfold C01.ok
   rw [C01_noCrash swr sc inp hmp hn, C01_keep, C01_takenOnlyIf]; rfl
+
+/-- **C01 (c) for "every report a sidecar can produce"**: the hypothesis of `C01_noCrash` (no negative
+    series) is an invariant of the closed loop.  Starting from freshly started sidecars, after every
+    history in the closed-loop model — cycles with any faults, scrapes that deliver non-negative sample
+    counts, restarts, discovery changes with non-negative estimates, assignments written to a
+    sidecar from outside (every hash once, non-negative sizes), external resizing within max-shard —
+    a coordination cycle, again with any fault pattern, completes without crashing. -/
+theorem C01_no_crash_along_history (swr : Swr) (env : Loop.Env) (hmm : env.opt.minShard ≤ env.opt.maxShard)
+    (hmp : env.opt.maxProc ≠ 0) (n : Nat) (active : List Hash) (explore : AL St) (hn : (n : Int) ≤ env.opt.maxShard)
+    (he : ∀ e ∈ explore, 0 ≤ e.2.series ∧ 0 ≤ e.2.total) (ops : List Loop.Op)
+    (hops : ∀ op ∈ ops, Loop.wellFormedOp env op = true) (sc : Sched) (F : List Loop.Fault) (b : Bool) :
+    (cycle swr sc (Loop.inputOf env (Loop.run swr env
+      { shards := List.replicate n Loop.freshShard, replicas := n, active := active, explore := explore } ops) F b)).crashed = false :=
+  Loop.no_crash_any_history swr env hmm hmp n active explore hn he ops hops sc F b
+
+/-- non-vacuity: a history with every kind of operation -/
+example : ∀ op ∈ ([.cycle { assign := [7] } [] false, .scrape 0 7 (some (10, 12)), .update 1 [⟨9, 5, 5, .normal, 1⟩],
+      .setReplicas 3, .restart 0, .discover [7, 9] [(7, ⟨.good, 10, 10, .normal, 0⟩)],
+      .cycle {} [⟨true, false, false, false, false⟩] true] : List Loop.Op),
+    Loop.wellFormedOp { opt := ⟨0, 1000, 5, 1, false, false⟩, maxIdle := 3 } op = true := by decide
 
 /-- the guard of (c) is needed: with max-process-series = 0 and head relief that finds no room the
     model crashes (like the real code: integer divide by zero in tryScaleUp) -/
